@@ -334,6 +334,76 @@ class ManifestValidate(Target):
         return [('escaping-keys-are-rejected-by-validation', not hostile)]
 
 
+class JobStageIn(Target):
+    """Job.stageIn hands every reference it stages to StageReference together with THE JOB'S OWN working directory (the
+    location StageReference is proved to stay inside, above): no other directory is ever passed, references that do not
+    resolve to a path are not staged, and a simulator job stages nothing."""
+    prop = 'C18'
+    name = 'Job.stageIn'
+    file = D
+    qualname = 'Job.stageIn'
+    compare_return = False
+    trusted = ["WorkingDirectory.updateInputs only records what is there"]
+    assumptions = ["<= 2 references over the methods copy / link / ref / copyout / extract / output, from a direct source or a "
+                   "producer (with or without an lsf-dm-out post-executor); the migrated-job branch (the working directory is "
+                   "REPLACED by a link beside it) is excluded"]
+
+    def setup(self, c):
+        import experiment.model.graph as graph_mod
+        g = c.ghost
+        g['staged'] = []
+        g['order'] = []
+        jtype = c.one_of('backend', ['local', 'simulator'])
+        n = 1 + c.choice('references', 2)
+        refs, inputs, comprefs, producers = [], [], [], {}
+        for i in range(n):
+            method = c.one_of('ref%d.method' % i, ['copy', 'link', 'ref', 'copyout', 'extract', 'output'])
+            from_component = c.one_of('ref%d.from_component' % i, [False, True])
+            r = Obj('dataref%d' % i, method=method, stringRepresentation='r%d:%s' % (i, method),
+                    producerIdentifier=Obj('pid', identifier='stage0.p%d' % i))
+            refs.append(r)
+            if from_component:
+                comprefs.append(r)
+                hybrid = c.one_of('ref%d.producer_stages_output_back' % i, [False, True])
+                producers[r] = Obj('pspec', executors={'post': ([{'name': 'lsf-dm-out'}] if hybrid else [])})
+            else:
+                inputs.append(r)
+        wd = Obj('workdir', path=DEST, updateInputs=Extern('updateInputs', lambda c: g['order'].append('updateInputs')),
+                 experimentDirectory=Obj('instance-directory', path='/work/inst'), stageIndex=1)
+        spec = Obj('cspec', dataReferences=refs, inputDataReferences=inputs, componentDataReferences=comprefs,
+                   producers=producers)
+        this = Obj('job', cid=Obj('cid', identifier='stage1.me'), type=jtype, isMigrated=False, workingDirectory=wd,
+                   componentSpecification=spec, workflowGraph='graph', isStaged=False)
+        return State(args=[this], this=this, wd=wd, refs=refs, jtype=jtype)
+
+    def externs(self, c, st):
+        g = c.ghost
+
+        def stage(c, ref, location, graph):
+            g['staged'].append((ref, location))
+            g['order'].append(ref.method)
+        return {'StageReference': Extern('StageReference', stage), 'time.sleep': Extern('time.sleep', lambda c, t: None),
+                'logging.getLogger': Extern('getLogger', lambda c, n: NULLLOG)}
+
+    def ensures(self, c, st, out):
+        if out.kind == 'raise':
+            return [('no-exception', False)]
+        g = c.ghost
+        staged = g['staged']
+        cl = [('every-reference-is-staged-into-the-jobs-own-working-directory', all(loc is st.wd for (_, loc) in staged)),
+              ('references-without-a-path-are-not-staged', all(r.method != 'output' for (r, _) in staged)),
+              ('a-simulator-job-stages-nothing', not staged if st.jtype == 'simulator' else True),
+              ('job-is-marked-staged', st.this.isStaged is True)]
+        if 'updateInputs' in g['order']:
+            i = g['order'].index('updateInputs')
+            cl.append(('copyout-references-are-staged-after-the-inputs-were-recorded',
+                       all(m != 'copyout' for m in g['order'][:i]) and all(m == 'copyout' for m in g['order'][i + 1:])))
+        return cl
+
+    def cross_compare(self, *a):
+        return []
+
+
 class HostileArchivesNative:
     """BOUNDED stand-in with the REAL tarfile on a scratch directory (outside /repo and /verif): archives over the same
     vocabulary are built on disk (absolute names are redirected into the scratch directory), the working directory is
@@ -449,6 +519,6 @@ class HostileArchivesNative:
         return f
 
 
-TARGETS = [ExtractArchive(), StageCopyLink(), DeployManifest(), ManifestValidate()]
+TARGETS = [ExtractArchive(), StageCopyLink(), DeployManifest(), ManifestValidate(), JobStageIn()]
 BOUNDED = [HostileArchivesNative()]
 LEMMAS = []
